@@ -49,7 +49,7 @@ pub struct WorldExec {
     pub unspecified: bool,
 }
 
-pub const ALL_TYPES: &[&str] = &["S0", "S1", "S2", "N0", "I", "M00", "M01", "M10", "M11", "M20", "M21", "M30", "M31", "M40", "M41", "M50", "M51",
+pub const ALL_TYPES: &[&str] = &["S0", "S1", "S2", "N0", "AN", "AS", "I", "M00", "M01", "M10", "M11", "M20", "M21", "M30", "M31", "M40", "M41", "M50", "M51",
     "D0", "D1", "D2", "D3", "D4", "D5", "R0", "R1", "R2", "R3", "R4", "R5"];
 
 fn catch<R>(f: impl FnOnce() -> R) -> Result<R, ()> {
@@ -355,7 +355,7 @@ impl WorldExec {
 
     /// number of live cache entries whose value is tracked by the ownership ledger
     pub fn live_tracked(&self) -> usize {
-        self.snapshot().keys().filter(|(t, _)| t.starts_with('S') || t.starts_with('M') || t == "N0").count()
+        self.snapshot().keys().filter(|(t, _)| t.starts_with('S') || t.starts_with('M') || t == "N0" || t == "AN" || t == "AS").count()
     }
 
     pub fn rid_of(&self, ty: &str, id: &str) -> Option<usize> {
